@@ -341,7 +341,7 @@ async fn case(case_seed: u64, cfg: &CaseCfg, exp: &Expect, acc: &mut Acc) {
             acc.violation("c48/verify-fails-after-upgrade", witness("verify() is clean before the upgrade and reports inconsistencies after it", json!({"errors": format!("{v:?}").chars().take(1500).collect::<String>(), "mode": mode_s})));
         } else {
             acc.count("info.verify_nonempty_before_upgrade_too");
-            acc.observe("info.verify_errors_before_upgrade", &format!("{v:?}").chars().take(200).collect::<String>());
+            acc.observe("info.verify_errors_before_upgrade", &format!("case_seed={case_seed} {v:?}").chars().take(200).collect::<String>());
         }
     }
     let kinds: Vec<usize> = [Kind::Person, Kind::Group, Kind::Service, Kind::OAuth2].iter().map(|k| model.of(*k).len()).collect();
